@@ -127,6 +127,54 @@ def history(rng, res, kinds_pool):
         m.close()
 
 
+def pressure_abort(rng, res):
+    """a transaction that changes more pages than the pool has frames (its pages are written out and read back while it
+    runs) and is then aborted: rows with row ids and index entries must be as before"""
+    from dbsession import DB
+    indexed = rng.random() < 0.5
+    frames = rng.choice([24, 32]) if indexed else rng.choice([12, 16, 20])
+    db = DB(mem_kb=frames * 4)
+    fails = []
+    try:
+        if not db.open().startswith("ok"):
+            return [("open", "database does not start in a %d-frame pool" % frames)]
+        db.cmd("mktable pt k:i:%s,g:i:n,v:s:n" % ("s" if indexed else "n"))
+        n = rng.choice([300, 450])
+        for i in range(n):
+            db.cmd("rawinsert pt i:%d i:%d s:%s" % (i, i % 5, (b"q" * rng.choice([150, 200, 230])).hex()))
+        before = (db.cmd("scan pt"), db.cmd("idx pt 0"))
+        db.cmd("begin a")
+        kinds = []
+        for _ in range(rng.randrange(1, 4)):
+            r = rng.random()
+            if r < 0.5:
+                sql = "UPDATE pt SET g = %d WHERE g = %d OR g = %d;" % (rng.randrange(10, 99), rng.randrange(5), rng.randrange(5)); kinds.append("update-inplace")
+            elif r < 0.7:
+                sql = "UPDATE pt SET v = '%s' WHERE g = %d OR g = %d;" % ("s" * rng.choice([10, 100]), rng.randrange(5), rng.randrange(5)); kinds.append("update-shrink")
+            elif r < 0.85:
+                sql = "DELETE FROM pt WHERE g = %d OR g = %d;" % (rng.randrange(5), rng.randrange(5)); kinds.append("delete")
+            else:
+                sql = "UPDATE pt SET k = %d WHERE g = %d OR g = %d;" % (1000 + rng.randrange(100), rng.randrange(5), rng.randrange(5)); kinds.append("update-key")
+            a = db.cmd("tsql a " + sql, timeout=60)
+            if not a.startswith("ok"):
+                break
+        db.cmd("abort a", timeout=60)
+        if db.dead:
+            return [("# session:\n" + "\n".join(l[:120] for l in db.log[-12:]), "engine stopped answering: " + db.dead)]
+        after = (db.cmd("scan pt"), db.cmd("idx pt 0"))
+        what = "abort of a transaction (%s) over %d rows / ~%d pages in a %d-frame pool%s" % (",".join(kinds), n, n // 17, frames, ", skip-list index on k" if indexed else "")
+        res.note_case("pressure-abort|" + what, True)
+        for nm, b, a2 in (("rows (with row ids)", before[0], after[0]), ("entries of the index on k", before[1], after[1])):
+            if b != a2:
+                bs, as_ = set(b[3:].split(";")), set(a2[3:].split(";"))
+                fails.append(("# session:\n" + "\n".join(l[:160] for l in db.log[-10:]) + "\n# (%d rows inserted with rawinsert pt i:<i> i:<i%%5> s:<150-230 x 'q'> before)" % n,
+                              "%s: %s differ after the abort: only before %s | only after %s" % (what, nm, [x[:60] for x in sorted(bs - as_)[:3]], [x[:60] for x in sorted(as_ - bs)[:3]])))
+                break
+    finally:
+        db.destroy()
+    return fails
+
+
 def hash_probe(res):
     rng = random.Random(3)
     m = Mirror(rng)
@@ -155,6 +203,10 @@ def run(res, replay=None):
     if not go_ok:
         return
     rng = random.Random(res.seed)
+    for _ in range(6 if res.tier == "quick" else 60):
+        for d, w in pressure_abort(rng, res):
+            if len(res.oracle_failures) < 5:
+                res.oracle_failures.append((d, w))
     # correspondence of the row-level engine model (Model/Engine.v, theorems of Props/C03.v) with the engine
     import enginecorr
     enginecorr.run_corr(res, random.Random(res.seed * 7919 + 3), 100 if res.tier == "quick" else 1500, focus="abort")
